@@ -528,7 +528,7 @@ func (d *driver) check(t0 time.Time, nomin bool) int {
 	block := 25
 	extra := []string{}
 	if d.tier == "thorough" {
-		extra = append(extra, "SIM_VARIANT=0", "SIM_VARIANT_SWEEP=1")
+		extra = append(extra, fmt.Sprintf("SIM_VARIANT_BASE=%d", d.seed*1_000_000_000))
 	}
 	maxRuns := int(envU64("VERIF_MAX_RUNS", 0))
 	for w := 0; w < d.workers; w++ {
